@@ -1,9 +1,11 @@
 (* E1 proofs: shipped lattice bimorphisms distribute over merge (C07).
    - the cartesian product of sets is a bottom-preserving ("strict") bimorphism;
-   - [keyed f] is a strict bimorphism whenever f is (parametric in f and in the three value
-     lattices) -- hence every tower Keyed<..Keyed<Cartesian>..> by induction on the shape;
-   - PairBimorphism is a bimorphism but not strict, and a KeyedBimorphism around it is NOT a
-     bimorphism (refuted by a witness that is replayed on the real crate). *)
+   - PairBimorphism is a bimorphism (not strict);
+   - [keyed f] (KeyedBimorphism, which since repo commit 77f6722ffe1 skips bottom-valued entries)
+     is a strict bimorphism for ANY wrapped bimorphism f, parametric in f and in the three value
+     lattices -- hence every shape (any nesting of Keyed over Cartesian / Pair) by induction;
+   - historical: the loop before that commit ([keyed_old]) around PairBimorphism did not
+     distribute (former finding, witness kept). *)
 From HV Require Import Lattice.Univ Lattice.Ord Lattice.PSet Lattice.PMapBase Lattice.PMap
   Lattice.PBot Lattice.PUniv Lattice.Morph.
 From Coq Require Import ZifyBool ZifyN.
@@ -291,7 +293,6 @@ Section KeyedB.
   Hypothesis HO : LatLaws LO.
   Variable f : VA -> VB -> VO.
   Hypothesis BM : Bimorph LA LB LO f.
-  Hypothesis ST : Strict LA LB LO f.
 
   Notation MA := (map_ops LA).
   Notation MB := (map_ops LB).
@@ -300,93 +301,12 @@ Section KeyedB.
   Notation agb := (@aget VB LB).
   Notation ago := (@aget VO LO).
 
-  (* the loop, as a filter-map over a's entries *)
-  Definition kspec (a : list (N * VA)) (b : list (N * VB)) : list (N * VO) :=
-    flat_map (fun kv => match get (fst kv) b with
-                        | Some vb => [(fst kv, f (snd kv) vb)]
-                        | None => []
-                        end) a.
-
-  Lemma keyed_fold b : forall a out, NoDup (keys a) ->
-    (forall k, In k (keys a) -> ~ In k (keys out)) ->
-    fold_left (keyed_step f b) a out = out ++ kspec a b.
-  Proof.
-    induction a as [|[k v] r IH]; intros out Hn Hd; cbn [fold_left kspec flat_map].
-    - rewrite app_nil_r. reflexivity.
-    - inversion Hn as [|? ? Hnot Hn']; subst. unfold keyed_step at 2. cbn [fst snd].
-      destruct (get k b) as [vb|] eqn:Gb.
-      + unfold map_put. cbn [fst snd].
-        assert (G : get k out = None) by (apply get_None, Hd; left; reflexivity).
-        rewrite G. rewrite IH; [rewrite <- app_assoc; reflexivity|exact Hn'|].
-        intros k' Hk'. rewrite keys_app, in_app_iff. cbn. intros [Hs|[Hs|[]]].
-        * apply (Hd k'); [right; exact Hk'|exact Hs].
-        * subst. contradiction.
-      + cbn [app]. apply IH; [exact Hn'|]. intros k' Hk'. apply Hd. right. exact Hk'.
-  Qed.
-
-  Lemma keyed_eq a b : NoDup (keys a) -> keyed f a b = kspec a b.
-  Proof. intros Hn. unfold keyed. rewrite keyed_fold; [reflexivity|exact Hn|]. intros k _ []. Qed.
-
-  Lemma get_kspec b k : forall a, NoDup (keys a) ->
-    get k (kspec a b) =
-    match get k a, get k b with
-    | Some va, Some vb => Some (f va vb)
-    | _, _ => None
-    end.
-  Proof.
-    induction a as [|[k' v] r IH]; intros Hn; cbn [kspec flat_map get fst snd]; [reflexivity|].
-    inversion Hn as [|? ? Hnot Hn']; subst. fold (kspec r b). rewrite get_app.
-    destruct (N.eqb_spec k k') as [Q|Q].
-    - subst k'. destruct (get k b) as [vb|] eqn:Gb; cbn [get].
-      + rewrite N.eqb_refl. reflexivity.
-      + rewrite (IH Hn'). assert (G : get k r = None) by (apply get_None; exact Hnot).
-        rewrite G. reflexivity.
-    - destruct (get k' b) as [vb'|]; cbn [get].
-      + destruct (N.eqb_spec k k'); [contradiction|]. apply IH, Hn'.
-      + apply IH, Hn'.
-  Qed.
-
-  Lemma kspec_NoDup b : forall a, NoDup (keys a) -> NoDup (keys (kspec a b)).
-  Proof.
-    induction a as [|[k v] r IH]; intros Hn; cbn [kspec flat_map fst snd]; [constructor|].
-    inversion Hn as [|? ? Hnot Hn']; subst. fold (kspec r b). rewrite keys_app.
-    destruct (get k b) as [vb|]; cbn [keys map app fst]; [|apply IH, Hn'].
-    constructor; [|apply IH, Hn']. apply get_None. rewrite (get_kspec b k r Hn').
-    assert (G : get k r = None) by (apply get_None; exact Hnot). rewrite G. reflexivity.
-  Qed.
-
-  Lemma kspec_W a b : W MA a -> W MB b -> W MO (kspec a b).
-  Proof.
-    intros Wa Wb. pose proof (@mw_nodup VA LA a Wa) as Na. apply mw_intro.
-    - apply kspec_NoDup, Na.
-    - intros k v Hi. apply In_get in Hi; [|apply kspec_NoDup, Na].
-      rewrite (get_kspec b k a Na) in Hi.
-      destruct (get k a) as [va|] eqn:Ga; [|discriminate].
-      destruct (get k b) as [vb|] eqn:Gb; [|discriminate]. inversion Hi; subst.
-      apply (bm_wf BM); [exact (@mw_val VA LA a k va Wa Ga)|exact (@mw_val VB LB b k vb Wb Gb)].
-  Qed.
-
-  (* what is visible in the output: f of the visible inputs (this is where strictness is used) *)
+  (* what is visible in the output: f of the visible inputs *)
   Definition obind (x : option VA) (y : option VB) : option VO :=
     match x, y with
     | Some u, Some w => vis LO (f u w)
     | _, _ => None
     end.
-
-  Lemma aget_kspec a b k : W MA a -> W MB b -> ago k (kspec a b) = obind (aga k a) (agb k b).
-  Proof.
-    intros Wa Wb. pose proof (@mw_nodup VA LA a Wa) as Na.
-    unfold aget. rewrite (get_kspec b k a Na).
-    destruct (get k a) as [va|] eqn:Ga; [|reflexivity].
-    destruct (get k b) as [vb|] eqn:Gb; [|destruct (isbot LA va); reflexivity].
-    assert (Wva : W LA va) by exact (@mw_val VA LA a k va Wa Ga).
-    assert (Wvb : W LB vb) by exact (@mw_val VB LB b k vb Wb Gb).
-    destruct (isbot LA va) eqn:Ba.
-    - cbn. rewrite (st_l ST Wva Wvb Ba). reflexivity.
-    - destruct (isbot LB vb) eqn:Bb; cbn.
-      + rewrite (st_r ST Wva Wvb Bb). reflexivity.
-      + reflexivity.
-  Qed.
 
   Lemma obind_None_r x : obind x None = None.
   Proof. destruct x; reflexivity. Qed.
@@ -446,8 +366,7 @@ Section KeyedB.
   Qed.
 
   (* Any map-valued K whose output is well-formed and whose VISIBLE value at every key is
-     [obind] of the visible inputs is a strict bimorphism (used for the shipped loop, which
-     needs f strict to have that shape, and for the repaired loop, which has it for every f) *)
+     [obind] of the visible inputs is a strict bimorphism *)
   Section Gen.
   Variable kspec : list (N * VA) -> list (N * VB) -> list (N * VO).
   Hypothesis kspec_W : forall a b, W MA a -> W MB b -> W MO (kspec a b).
@@ -522,43 +441,21 @@ Section KeyedB.
   Qed.
   End Gen.
 
-  Lemma kspec_bimorph : Bimorph MA MB MO kspec.
-  Proof. apply gen_bimorph; [exact kspec_W|intros; apply aget_kspec; assumption]. Qed.
-
-  Lemma kspec_strict : Strict MA MB MO kspec.
-  Proof. apply gen_strict; [exact kspec_W|intros; apply aget_kspec; assumption]. Qed.
-
-  (* the transcribed loop itself *)
-  Theorem keyed_bimorph : Bimorph MA MB MO (keyed f) /\ Strict MA MB MO (keyed f).
-  Proof.
-    pose proof (@map_laws VA LA HA) as HMA. pose proof (@map_laws VB LB HB) as HMB.
-    assert (Q : forall a b, W MA a -> keyed f a b = kspec a b).
-    { intros a b Wa. apply keyed_eq. exact (@mw_nodup VA LA a Wa). }
-    destruct kspec_bimorph as [K1 K2 K3 K4]. destruct kspec_strict as [S1 S2].
-    split; split.
-    - intros a b Wa Wb. rewrite Q by assumption. auto.
-    - intros a a' b b' Wa Wa' Wb Wb'. rewrite !Q by assumption. auto.
-    - intros a da b Wa Wda Wb. rewrite !Q by (try assumption; apply (m_wf HMA); assumption). auto.
-    - intros a b db Wa Wb Wdb. rewrite !Q by assumption. auto.
-    - intros a b Wa Wb. rewrite Q by assumption. auto.
-    - intros a b Wa Wb. rewrite Q by assumption. auto.
-  Qed.
-
-  (* ------------------------------------------------------------ the repaired loop *)
-  Definition kfspec (a : list (N * VA)) (b : list (N * VB)) : list (N * VO) :=
+  (* ------------------------------------------------------------ the loop *)
+  Definition kspec (a : list (N * VA)) (b : list (N * VB)) : list (N * VO) :=
     flat_map (fun kv => match get (fst kv) b with
                         | Some vb => if isbot LA (snd kv) || isbot LB vb then []
                                      else [(fst kv, f (snd kv) vb)]
                         | None => []
                         end) a.
 
-  Lemma keyed_fixed_fold b : forall a out, NoDup (keys a) ->
+  Lemma keyed_fold b : forall a out, NoDup (keys a) ->
     (forall k, In k (keys a) -> ~ In k (keys out)) ->
-    fold_left (keyed_fixed_step LA LB f b) a out = out ++ kfspec a b.
+    fold_left (keyed_step LA LB f b) a out = out ++ kspec a b.
   Proof.
-    induction a as [|[k v] r IH]; intros out Hn Hd; cbn [fold_left kfspec flat_map].
+    induction a as [|[k v] r IH]; intros out Hn Hd; cbn [fold_left kspec flat_map].
     - rewrite app_nil_r. reflexivity.
-    - inversion Hn as [|? ? Hnot Hn']; subst. unfold keyed_fixed_step at 2. cbn [fst snd].
+    - inversion Hn as [|? ? Hnot Hn']; subst. unfold keyed_step at 2. cbn [fst snd].
       assert (Hd' : forall k', In k' (keys r) -> ~ In k' (keys out)).
       { intros k' Hk'. apply Hd. right. exact Hk'. }
       destruct (get k b) as [vb|] eqn:Gb; [|cbn [app]; apply IH; assumption].
@@ -571,20 +468,20 @@ Section KeyedB.
       + subst. contradiction.
   Qed.
 
-  Lemma keyed_fixed_eq a b : NoDup (keys a) -> keyed_fixed LA LB f a b = kfspec a b.
+  Lemma keyed_eq a b : NoDup (keys a) -> keyed LA LB f a b = kspec a b.
   Proof.
-    intros Hn. unfold keyed_fixed. rewrite keyed_fixed_fold; [reflexivity|exact Hn|]. intros k _ [].
+    intros Hn. unfold keyed. rewrite keyed_fold; [reflexivity|exact Hn|]. intros k _ [].
   Qed.
 
-  Lemma get_kfspec b k : forall a, NoDup (keys a) ->
-    get k (kfspec a b) =
+  Lemma get_kspec b k : forall a, NoDup (keys a) ->
+    get k (kspec a b) =
     match get k a, get k b with
     | Some va, Some vb => if isbot LA va || isbot LB vb then None else Some (f va vb)
     | _, _ => None
     end.
   Proof.
-    induction a as [|[k' v] r IH]; intros Hn; cbn [kfspec flat_map get fst snd]; [reflexivity|].
-    inversion Hn as [|? ? Hnot Hn']; subst. fold (kfspec r b). rewrite get_app.
+    induction a as [|[k' v] r IH]; intros Hn; cbn [kspec flat_map get fst snd]; [reflexivity|].
+    inversion Hn as [|? ? Hnot Hn']; subst. fold (kspec r b). rewrite get_app.
     assert (Gr : get k' r = None) by (apply get_None; exact Hnot).
     destruct (N.eqb_spec k k') as [Q|Q].
     - subst k'. destruct (get k b) as [vb|] eqn:Gb; cbn [get].
@@ -597,22 +494,22 @@ Section KeyedB.
       destruct (N.eqb_spec k k'); [contradiction|]. apply IH, Hn'.
   Qed.
 
-  Lemma kfspec_NoDup b : forall a, NoDup (keys a) -> NoDup (keys (kfspec a b)).
+  Lemma kspec_NoDup b : forall a, NoDup (keys a) -> NoDup (keys (kspec a b)).
   Proof.
-    induction a as [|[k v] r IH]; intros Hn; cbn [kfspec flat_map fst snd]; [constructor|].
-    inversion Hn as [|? ? Hnot Hn']; subst. fold (kfspec r b). rewrite keys_app.
+    induction a as [|[k v] r IH]; intros Hn; cbn [kspec flat_map fst snd]; [constructor|].
+    inversion Hn as [|? ? Hnot Hn']; subst. fold (kspec r b). rewrite keys_app.
     destruct (get k b) as [vb|]; cbn [keys map app fst]; [|apply IH, Hn'].
     destruct (isbot LA v || isbot LB vb); cbn [keys map app fst]; [apply IH, Hn'|].
-    constructor; [|apply IH, Hn']. apply get_None. rewrite (get_kfspec b k r Hn').
+    constructor; [|apply IH, Hn']. apply get_None. rewrite (get_kspec b k r Hn').
     assert (G : get k r = None) by (apply get_None; exact Hnot). rewrite G. reflexivity.
   Qed.
 
-  Lemma kfspec_W a b : W MA a -> W MB b -> W MO (kfspec a b).
+  Lemma kspec_W a b : W MA a -> W MB b -> W MO (kspec a b).
   Proof.
     intros Wa Wb. pose proof (@mw_nodup VA LA a Wa) as Na. apply mw_intro.
-    - apply kfspec_NoDup, Na.
-    - intros k v Hi. apply In_get in Hi; [|apply kfspec_NoDup, Na].
-      rewrite (get_kfspec b k a Na) in Hi.
+    - apply kspec_NoDup, Na.
+    - intros k v Hi. apply In_get in Hi; [|apply kspec_NoDup, Na].
+      rewrite (get_kspec b k a Na) in Hi.
       destruct (get k a) as [va|] eqn:Ga; [|discriminate].
       destruct (get k b) as [vb|] eqn:Gb; [|discriminate].
       destruct (isbot LA va || isbot LB vb); [discriminate|]. inversion Hi; subst.
@@ -620,25 +517,25 @@ Section KeyedB.
   Qed.
 
   (* no strictness of f needed: bottom inputs are skipped by the loop itself *)
-  Lemma aget_kfspec a b k : W MA a -> W MB b -> ago k (kfspec a b) = obind (aga k a) (agb k b).
+  Lemma aget_kspec a b k : W MA a -> W MB b -> ago k (kspec a b) = obind (aga k a) (agb k b).
   Proof.
     intros Wa Wb. pose proof (@mw_nodup VA LA a Wa) as Na.
-    unfold aget. rewrite (get_kfspec b k a Na).
+    unfold aget. rewrite (get_kspec b k a Na).
     destruct (get k a) as [va|] eqn:Ga; [|reflexivity].
     destruct (get k b) as [vb|] eqn:Gb; [|destruct (isbot LA va); reflexivity].
     destruct (isbot LA va), (isbot LB vb); reflexivity.
   Qed.
 
-  Theorem keyed_fixed_bimorph :
-    Bimorph MA MB MO (keyed_fixed LA LB f) /\ Strict MA MB MO (keyed_fixed LA LB f).
+  Theorem keyed_bimorph :
+    Bimorph MA MB MO (keyed LA LB f) /\ Strict MA MB MO (keyed LA LB f).
   Proof.
     pose proof (@map_laws VA LA HA) as HMA. pose proof (@map_laws VB LB HB) as HMB.
-    assert (Q : forall a b, W MA a -> keyed_fixed LA LB f a b = kfspec a b).
-    { intros a b Wa. apply keyed_fixed_eq. exact (@mw_nodup VA LA a Wa). }
-    assert (KB : Bimorph MA MB MO kfspec).
-    { apply gen_bimorph; [exact kfspec_W|intros; apply aget_kfspec; assumption]. }
-    assert (KS : Strict MA MB MO kfspec).
-    { apply gen_strict; [exact kfspec_W|intros; apply aget_kfspec; assumption]. }
+    assert (Q : forall a b, W MA a -> keyed LA LB f a b = kspec a b).
+    { intros a b Wa. apply keyed_eq. exact (@mw_nodup VA LA a Wa). }
+    assert (KB : Bimorph MA MB MO kspec).
+    { apply gen_bimorph; [exact kspec_W|intros; apply aget_kspec; assumption]. }
+    assert (KS : Strict MA MB MO kspec).
+    { apply gen_strict; [exact kspec_W|intros; apply aget_kspec; assumption]. }
     destruct KB as [K1 K2 K3 K4]. destruct KS as [S1 S2].
     split; split.
     - intros a b Wa Wb. rewrite Q by assumption. auto.
@@ -651,30 +548,33 @@ Section KeyedB.
 End KeyedB.
 
 (* ---------------------------------------------------------------- induction on the shape *)
-Lemma nopair_key_total s : nopair s = true ->
+Lemma types_ok_key_total s : types_ok s = true ->
   key_total (ty_a s) = true /\ key_total (ty_b s) = true /\ key_total (ty_o s) = true.
-Proof. induction s; cbn; intros NP; try discriminate; auto. Qed.
-
-(* every tower Keyed<..Keyed<Cartesian>..>, of any depth *)
-Theorem shape_strict s : nopair s = true ->
-  Bimorph (ops (ty_a s)) (ops (ty_b s)) (ops (ty_o s)) (bapply s) /\
-  Strict (ops (ty_a s)) (ops (ty_b s)) (ops (ty_o s)) (bapply s).
 Proof.
-  induction s as [| |s IH]; cbn [nopair]; intros NP; try discriminate.
-  - split; [exact cart_bimorph|exact cart_strict].
-  - destruct (IH NP) as [BM ST]. destruct (nopair_key_total s NP) as [Ka [Kb Ko]].
+  induction s; cbn; intros OK; auto.
+  apply andb_true_iff in OK. destruct OK as [Ka Kb]. rewrite Ka, Kb. auto.
+Qed.
+
+(* EVERY shape -- Cartesian, Pair, and any number of KeyedBimorphisms around either *)
+Theorem shape_bimorph s : shape_ok s = true ->
+  Bimorph (ops (ty_a s)) (ops (ty_b s)) (ops (ty_o s)) (bapply s).
+Proof.
+  unfold shape_ok. induction s as [|ta tb|s IH]; cbn [types_ok]; intros OK.
+  - exact cart_bimorph.
+  - apply andb_true_iff in OK. destruct OK as [Ka Kb]. cbn [ty_a ty_b ty_o ops bapply].
+    apply pair_bimorph; apply laws; assumption.
+  - destruct (types_ok_key_total s OK) as [Ka [Kb Ko]].
     cbn [ty_a ty_b ty_o ops bapply].
     apply keyed_bimorph; auto using laws.
 Qed.
 
-Theorem shape_bimorph s : shape_ok s = true ->
-  Bimorph (ops (ty_a s)) (ops (ty_b s)) (ops (ty_o s)) (bapply s).
+(* every KeyedBimorphism maps bottom (in either argument) to bottom, whatever it wraps *)
+Theorem keyed_shape_strict s : shape_ok s = true ->
+  Strict (ops (ty_a (BKeyed s))) (ops (ty_b (BKeyed s))) (ops (ty_o (BKeyed s))) (bapply (BKeyed s)).
 Proof.
-  destruct s as [|ta tb|s]; cbn [shape_ok]; intros OK.
-  - exact cart_bimorph.
-  - apply andb_true_iff in OK. destruct OK as [Ka Kb]. cbn [ty_a ty_b ty_o ops bapply].
-    apply pair_bimorph; apply laws; assumption.
-  - exact (proj1 (shape_strict (BKeyed s) OK)).
+  unfold shape_ok. intros OK. destruct (types_ok_key_total s OK) as [Ka [Kb Ko]].
+  cbn [ty_a ty_b ty_o ops bapply].
+  apply keyed_bimorph; auto using laws. apply shape_bimorph, OK.
 Qed.
 
 (* the executable form holds of the model's own observation *)
@@ -689,53 +589,29 @@ Proof.
   - exact (bm_r BM Wa Wb Wdb).
 Qed.
 
-(* PairBimorphism is not strict ... *)
+(* PairBimorphism is not strict *)
 Lemma pair_not_strict_refuted :
   exists (a : val TSet) (b : val TSet), W (ops TSet) a /\ W (ops TSet) b /\
     isbot (ops TSet) a = true /\ isbot (ops (TPair TSet TSet)) (bapply (BPair TSet TSet) a b) = false.
 Proof. exists [], [1%N]. repeat split. Qed.
 
-(* ... and a KeyedBimorphism around it does not distribute over merge: a delta entry whose value
-   is bottom is skipped by MapUnion's merge on the input side, but its image (bottom, vb) is a
-   non-bottom Pair that survives on the output side *)
-Lemma keyed_pair_refuted :
-  let s := BKeyed (BPair TSet TSet) in
-  exists (a da : val (ty_a s)) (b : val (ty_b s)),
-    W (ops (ty_a s)) a /\ W (ops (ty_a s)) da /\ W (ops (ty_b s)) b /\
-    ~ E (ops (ty_o s)) (bapply s (m (ops (ty_a s)) a da) b)
-                       (m (ops (ty_o s)) (bapply s a b) (bapply s da b)).
-Proof.
-  exists [], [(0%N, [])], [(0%N, [1%N])]. repeat split.
-  intros Q. vm_compute in Q. discriminate.
-Qed.
+(* HISTORICAL (former finding keyed/inner-not-bottom-preserving, fixed by repo commit
+   77f6722ffe1): the loop without the is_bot test, around PairBimorphism, did not distribute: a
+   delta entry whose value is bottom is skipped by MapUnion's merge on the input side, but its
+   image (bottom, vb) is a non-bottom Pair that survived on the output side. *)
+Lemma keyed_old_pair_witness :
+  let LS := ops TSet in let LO := ops (TMap (TPair TSet TSet)) in
+  let f := keyed_old (@pairb (val TSet) (val TSet)) in
+  let a : val (TMap TSet) := [] in let da : val (TMap TSet) := [(0%N, [])] in
+  let b : val (TMap TSet) := [(0%N, [1%N])] in
+  ~ E LO (f (m (ops (TMap TSet)) a da) b) (m LO (f a b) (f da b)).
+Proof. intros LS LO f a da b Q. vm_compute in Q. discriminate. Qed.
 
-(* ---------------------------------------------------------------- the repaired KeyedBimorphism *)
-Lemma types_ok_key_total s : types_ok s = true ->
-  key_total (ty_a s) = true /\ key_total (ty_b s) = true /\ key_total (ty_o s) = true.
-Proof.
-  induction s; cbn; intros OK; auto.
-  apply andb_true_iff in OK. destruct OK as [Ka Kb]. rewrite Ka, Kb. auto.
-Qed.
-
-(* with the repair, EVERY shape -- PairBimorphism under any number of KeyedBimorphisms
-   included -- distributes over merge *)
-Theorem shape_fixed_bimorph s : types_ok s = true ->
-  Bimorph (ops (ty_a s)) (ops (ty_b s)) (ops (ty_o s)) (bapply_fixed s).
-Proof.
-  induction s as [|ta tb|s IH]; cbn [types_ok]; intros OK.
-  - exact cart_bimorph.
-  - apply andb_true_iff in OK. destruct OK as [Ka Kb]. cbn [ty_a ty_b ty_o ops bapply_fixed].
-    apply pair_bimorph; apply laws; assumption.
-  - destruct (types_ok_key_total s OK) as [Ka [Kb Ko]].
-    cbn [ty_a ty_b ty_o ops bapply_fixed].
-    apply keyed_fixed_bimorph; auto using laws.
-Qed.
-
-(* the witness that refutes the shipped loop is handled by the repaired one *)
-Example keyed_fixed_on_witness :
+(* the same input on the current loop *)
+Example keyed_on_former_witness :
   let s := BKeyed (BPair TSet TSet) in
   let a : val (ty_a s) := [] in let da : val (ty_a s) := [(0%N, [])] in
   let b : val (ty_b s) := [(0%N, [1%N])] in
-  bapply_fixed s (m (ops (ty_a s)) a da) b = [] /\
-  m (ops (ty_o s)) (bapply_fixed s a b) (bapply_fixed s da b) = [].
+  bapply s (m (ops (ty_a s)) a da) b = [] /\
+  m (ops (ty_o s)) (bapply s a b) (bapply s da b) = [].
 Proof. split; reflexivity. Qed.
